@@ -4,7 +4,7 @@ sys.path.insert(0, os.path.dirname(__file__))
 from _common import main
 import vbs_common as V
 
-BOUND = 'VBS, blocked-VBS and IPM files of 1..7 records with record ends swept across block edges; every truncation offset 0..len (quick: every offset of 6 files; thorough: 40 files)'
+BOUND = 'records ending in runs of 0x40 (blank-filled data); VBS, blocked-VBS and IPM files of 1..7 records with record ends swept across block edges; every truncation offset 0..len (quick: every offset of 6 files; thorough: 40 files)'
 
 
 def build(kind, lens):
@@ -15,10 +15,11 @@ def build(kind, lens):
             for n in lens:
                 w.write({'MTI': '1144', 'DE2': '4' * 16, 'DE72': 'y' * (n % 990 + 1)})
         return f.getvalue(), True
-    blocked = kind == 'blocked'
+    blocked = kind in ('blocked', 'blocked40')
     with VbsWriter(f, blocked=blocked) as w:
         for i, n in enumerate(lens):
-            w.write(V.rec_bytes(n, i))
+            # '...40' files: records are blank-filled (EBCDIC space = 0x40), as in real IPM data
+            w.write((V.rec_bytes(n // 2, i) + b'\x40' * (n - n // 2)) if kind.endswith('40') else V.rec_bytes(n, i))
     return f.getvalue(), blocked
 
 
@@ -42,7 +43,7 @@ def oracle(inp):
 
 
 def cases(tier, rng):
-    files = [('vbs', [10, 1, 300]), ('blocked', [1004]), ('blocked', [1008, 5]), ('blocked', [1007, 1010, 3]), ('blocked', [2100, 20]), ('ipm', [5, 500, 989, 3, 77, 800, 12])]
+    files = [('blocked40', [30, 2, 700]), ('vbs40', [9, 40]), ('blocked40', [1008, 1100, 6]), ('vbs', [10, 1, 300]), ('blocked', [1004]), ('blocked', [1008, 5]), ('blocked', [1007, 1010, 3]), ('blocked', [2100, 20]), ('ipm', [5, 500, 989, 3, 77, 800, 12])]
     if tier == 'thorough':
         for a in range(1000, 1017):
             files.append(('blocked', [a, 9]))
